@@ -127,6 +127,12 @@ func run(o *options) int {
 			units = append(units, u)
 		}
 	}
+	for _, cn := range cs.Censuses {
+		if !wants(cn.Props) || o.unit != "" && !strings.Contains("census", o.unit) {
+			continue
+		}
+		units = append(units, verifyCensus(p, cn))
+	}
 	for _, lm := range cs.Lemmas {
 		if !wants(lm.Props) {
 			continue
